@@ -24,7 +24,6 @@ additional Fiddle-specific context to the exception message. This approach was
 inspired by Gin's exception logic.
 """
 
-import contextlib
 import functools
 import logging
 from typing import Callable
@@ -67,15 +66,27 @@ def decorate_exception(exception, message: str):
     return exception
 
 
-@contextlib.contextmanager
-def try_with_lazy_message(lazy_message: Callable[[], str]):
-  """Context manager which reraises exceptions."""
-  try:
-    yield
-  except Exception as exc:  # pylint: disable=broad-except
+class try_with_lazy_message:  # pylint: disable=invalid-name
+  """Context manager which reraises exceptions.
+
+  Implemented as a class rather than with `contextlib.contextmanager`: an
+  exception re-raised from inside a generator-based context manager is turned
+  into `RuntimeError` when it is a `StopIteration` (PEP 479), which would hide
+  the original exception class.
+  """
+
+  def __init__(self, lazy_message: Callable[[], str]):
+    self._lazy_message = lazy_message
+
+  def __enter__(self):
+    return None
+
+  def __exit__(self, exc_type, exc, traceback):
+    if exc is None or not isinstance(exc, Exception):
+      return False
     try:
-      message = lazy_message()
-    except:  # pylint: disable=broad-except
+      message = self._lazy_message()
+    except:  # pylint: disable=bare-except
       logging.exception('Formatting the debug information failed.')
       raise exc from None
     else:
